@@ -4,7 +4,7 @@ CONSTANTS
   MaxTips = 5
   ExhaustNodes = 5
   Patterns = {1, 2, 3}
-  Ops = {"NewickRT", "NewickNamesRT", "NewickDefaultRT", "JsonRT", "RichDictRT", "Copy", "DeepCopy", "CopyModule", "DndRT", "Sorted", "SortedRev", "RootedAt", "RootedWithTip", "Unrooted", "SubTree", "RootAtMidpoint", "Prune", "Bifurcating"}
+  Ops = {"NewickRT", "NewickNamesRT", "NewickDefaultRT", "JsonRT", "RichDictRT", "Copy", "DeepCopy", "CopyModule", "DndRT", "Sorted", "SortedRev", "RootedAt", "RootedWithTip", "Unrooted", "SubTree", "RootAtMidpoint", "Prune", "Bifurcating", "Query"}
   TipsOnlyVals = {FALSE}
   ShapeMod = 1
   ShapeRem = 0
@@ -15,3 +15,8 @@ PROPERTY TipsIntended
 PROPERTY MidpointCentred
 PROPERTY RerootLandsThere
 PROPERTY UnrootedDegree
+INVARIANT ConnectingEdgesSpanThePath
+INVARIANT ConnectingEdgesReverse
+INVARIANT LCAIsLowest
+INVARIANT CladeIsTheFarSideOfItsStem
+PROPERTY CladeWithOutgroupIsRootFree
